@@ -458,7 +458,7 @@ def rule_capacity(m, rep, rid='R3', frame=False):
     rep.ob(rid, 'build-passes-capacity', okb, m.build.where(wn[0]) if wn else m.build.where(),
            'build() passes self.capacity to the worker' if okb else 'build() does not pass the configured capacity unchanged')
     # builder setters: each changes exactly its field
-    rule_builder_frame(cad, rep, QB, {'with_capacity': ('capacity', 'some-param')}, rid='builder', value_only=not frame)
+    rule_builder_frame(cad, rep, QB, {'with_capacity': ('capacity', 'some-param')}, rid='builder', value_only=not frame, protect='capacity')
     # public constructors
     for name, want in (('with_capacity', True), ('from', False)):
         bs = cad.method(Q, name)
@@ -508,7 +508,7 @@ def _field_value(t, name):
         return None
 
 
-def rule_builder_frame(cad, rep, adt, setters, rid='builder', value_only=False):
+def rule_builder_frame(cad, rep, adt, setters, rid='builder', value_only=False, protect=None):
     """Every `with_X(mut self, ..) -> Self` returns self with exactly field X replaced."""
     fields = [f['name'] for f in adt_fields(cad, adt)]
     short = adt.rsplit('::', 1)[-1]
@@ -545,6 +545,13 @@ def rule_builder_frame(cad, rep, adt, setters, rid='builder', value_only=False):
                     okshape = False
                     break
         exp = setters.get(b.name)
+        if protect is not None and okshape and (exp is None or exp[0] != protect):
+            keeps = protect not in changed
+            rep.ob(rid, '%s::%s/keeps-%s' % (short, b.name, protect), keeps, b.where(),
+                   '%s carries the configured `%s` over' % (b.name, protect) if keeps else
+                   'builder method %s loses/overwrites the configured `%s`' % (b.name, protect))
+        if protect is not None and not okshape:
+            rep.unknown(rid, '%s::%s/keeps-%s' % (short, b.name, protect), b.where(), 'cannot see that %s keeps `%s`' % (b.name, protect))
         if value_only:
             if exp is None:
                 continue
